@@ -48,11 +48,12 @@ Free == {"Query", "List", "Release", "OpenOk", "Eof", "Close", "RunEnd", "Point"
 EvFree == More /\ ~skip /\ Ev.ev \in Free /\ Accept /\ UNCHANGED fam
 
 Explained == \/ Ev.ev \in Free
-             \/ Ev.ev = "Run" /\ CaseOk
+             \/ Ev.ev = "Run"
              \/ Ev.ev = "ContainerLogs" /\ LogsOk
              \/ Ev.ev = "Entry" /\ EntryOk
              \/ Ev.ev = "Return" /\ ReturnOk
 Bad  == Reject /\ ~Explained /\ UNCHANGED fam
-Next == Start \/ EvRun \/ EvLogs \/ EvEntry \/ EvReturn \/ EvFree \/ Bad \/ (Skipped /\ UNCHANGED fam) \/ (Finish /\ UNCHANGED fam)
+BadCase == RejectEnv /\ Ev.ev = "Run" /\ ~CaseOk /\ UNCHANGED fam
+Next == Start \/ BadCase \/ EvRun \/ EvLogs \/ EvEntry \/ EvReturn \/ EvFree \/ Bad \/ (Skipped /\ UNCHANGED fam) \/ (Finish /\ UNCHANGED fam)
 TraceSpec == Init /\ [][Next]_vars
 =============================================================================
